@@ -2,7 +2,7 @@
    Model Loop/World.v, recogniser Loop/Checks.v (rules 31/32/33), proofs Loop/WorldProofs.v,
    Loop/PickProofs.v. *)
 From Coq Require Import List Arith Bool.
-From RV Require Import Loop.World Loop.Checks Loop.WorldProofs Loop.PickProofs.
+From RV Require Import Loop.World Loop.Checks Loop.WorldProofs Loop.PickProofs Loop.C04Proofs Loop.TraceOracleProofs.
 Import ListNotations.
 
 (* Under every schedule, for every actor: once kill() on it has returned no callback starts
@@ -41,6 +41,21 @@ Theorem C03_msg_last : forall a m,
   pick a = PkMsg m -> a_sig a = false /\ a_stop a = None /\ a_supq a = [] /\ hd_error (a_msgq a) = Some m.
 Proof. exact pick_msg_last. Qed.
 
+(* supervision before messages, on traces (the oracle evaluated on implementation traces): under
+   every schedule, whenever an actor starts a MESSAGE handler, every ActorStarted already sent to
+   it (child spawn-linked to it, post_start returned Ok earlier in the trace) has been handled:
+   a pending supervision event is never overtaken by a user message *)
+Theorem C03_sup_first_sound : forall cfgs msgs ls,
+  check_C03_sup_first (map c_link cfgs) (trace_of (run (init cfgs msgs) ls)) = true.
+Proof. exact sup_first_sound. Qed.
+
+Theorem C03_sup_first_driver_programs : forall cfgs msgs rounds fuel order ops,
+  check_C03_sup_first (map c_link cfgs) (trace_of (run_dops rounds fuel order (init cfgs msgs) ops)) = true.
+Proof. exact sup_first_sound_dops. Qed.
+
+Check (C03_sup_first_sound : forall cfgs msgs ls,
+  check_C03_sup_first (map c_link cfgs) (trace_of (run (init cfgs msgs) ls)) = true).
+
 Check (C03_kill_stop_clauses : forall cfgs msgs ls n,
   check_C03 n (trace_of (run (init cfgs msgs) ls)) = true).
 
@@ -74,3 +89,5 @@ Print Assumptions C03_pick_signal_first.
 Print Assumptions C03_pick_stop_second.
 Print Assumptions C03_sup_before_msg.
 Print Assumptions C03_msg_last.
+Print Assumptions C03_sup_first_sound.
+Print Assumptions C03_sup_first_driver_programs.
